@@ -885,3 +885,20 @@ func (x *Ctx) KF(id string) bool { return x.M.active[id] }
 
 // Hash is the 64-bit FNV hash used for distinct counting.
 func Hash(b []byte) uint64 { return hashBytes(b) }
+
+// FuzzFail records a failing case found by a native fuzz target as a replay
+// file (the reproducible unit: Go's fuzzer cannot be seeded) and fails the test.
+func FuzzFail(t *testing.T, id, check string, c any, err error) {
+	root := os.Getenv("VERIF_ROOT")
+	if root == "" {
+		root = "/verif"
+	}
+	b := caseJSON(c)
+	dir := filepath.Join(root, "replays", id)
+	os.MkdirAll(dir, 0o755)
+	path := filepath.Join(dir, fmt.Sprintf("fail-fuzz-%s-%016x.json", check, hashBytes(b)))
+	doc := replayDoc{Property: id, Check: check, Message: firstLines(err.Error(), 12), Case: b}
+	out, _ := json.MarshalIndent(doc, "", " ")
+	os.WriteFile(path, append(out, '\n'), 0o644)
+	t.Fatalf("RAW-VIOLATION property=%s check=%s source=fuzz replay=%s\n  %v", id, check, path, err)
+}
